@@ -34,7 +34,9 @@ RULE = (
     'extra estimates outside the data, separation factors), multi_explicit (every assignment of a window menu '
     '{good, narrow, empty, outside, overlapping} to the peaks; full run vs every singleton and leave-one-out run), '
     'requirements (grid of FitRequirements), remove (real fits and hand-built results of every assessment, each at intensity scales 1e-12 .. 1e6; the fits '
-    'at different scales are compared with each other), multi_explicit also with model lists on spectra whose peaks prefer different models.  '
+    'at different scales are compared with each other), multi_explicit also with model lists on spectra whose peaks prefer different models, '
+    'representation (the same spectrum as plain array / with 1-2 masks in a successful, failed, no or every window / with extra aligned and unaligned '
+    'coords / as slice of a 2-d array, transposed 2-d slice, every-second view / float32 data or coordinate: fit and removal).  '
     'A scenario is non-trivial when fit_peaks/remove_peaks returned and at least one result was judged against the '
     'reference; distinct = distinct canonical scenario dictionaries'
 )
@@ -46,6 +48,9 @@ ASSUMPTIONS = [
     'automatic windows, weakest reading: per-side distance factor*gap from each neighbouring estimate, demanded of non-empty windows only',
     'data carry variances (Poisson-like), coordinates are sorted points; inverted explicit windows and unsorted estimates are not admissible and not tried',
     'scipy.optimize.curve_fit is trusted as the optimiser; nothing is demanded of where it converges',
+    'masked data: whether masked points take part in the fit is read off the implementation (replace the values under the mask by garbage: optimum unchanged '
+    '=> they are ignored); the statistics must then be those of the points the fit used; remove_peaks subtracts at every point of a successful window, masked or not, '
+    'and hands masks and coords back unchanged (behaviour of the unchanged tree, and the literal statement)',
     'window membership for removal is the half-open label slice [lo, hi) of the sorted coordinate that fit_peaks itself uses; the reference mask is cross-checked against plain scipp slicing in every case',
 ]
 BOUND = {
@@ -258,6 +263,12 @@ def cases(tier):
             spec = {'grid': g, 'bg': 'linear', 'noise': 0, 'peaks': pk}
             for w in (12.0, 40.0, 'full'):
                 out.append({'kind': 'remove_fitted', 'spectrum': spec, 'width': w, 'background': 'linear', 'peak': ['gaussian', 'lorentzian'], 'yscales': [1.0, 1e-12, 2.0**-40, 1e6]})
+    # representation --------------------------------------------------------------------
+    for g, name in itertools.product(('u101', 'n200'), REPRESENTATIONS):
+        pk = [{'shape': 'gaussian', 'width': 2.0, 'pos': 0.3}, {'shape': 'gaussian', 'width': 2.5, 'pos': 0.7}]
+        spec = {'grid': g, 'bg': 'linear', 'noise': 0, 'peaks': pk}
+        # one model combination only: whether masked points take part in the fit is read off the optimum, not off the model choice
+        out.append({'kind': 'representation', 'spectrum': spec, 'representation': name, 'background': 'linear', 'peak': 'gaussian'})
     assessments = [a.name for a in FitAssessment]
     for shape in ('gaussian', 'lorentzian', 'pseudo_voigt'):
         for layout, g in itertools.product(('disjoint', 'overlap', 'nested', 'empty', 'outside', 'on_points', 'upper_on_point', 'lower_on_point', 'to_data_ends', 'whole_range'), ('u101', 'n200')):
@@ -283,8 +294,10 @@ def fingerprint(res):
     )
 
 
-def judge_result(rec, res, x, y, var, *, kmin, reqs, sub):
-    """All per-result checks.  Returns the window (lo, hi) or None."""
+def judge_result(rec, res, x, y, var, *, kmin, reqs, sub, usable=None, stat_rel=1e-9, stat_kind='statistic_'):
+    """All per-result checks.  Returns the window (lo, hi) or None.
+
+    usable: boolean array over x - the points that took part in the fit (masked data); the statistics are recomputed from those."""
     rec.evals += 1
     if not isinstance(res, FitResult) or not isinstance(res.assessment, FitAssessment):
         rec.viol(SITE_FIT, 'not_a_result', f'element is {type(res).__name__}', **sub)
@@ -324,14 +337,17 @@ def judge_result(rec, res, x, y, var, *, kmin, reqs, sub):
     if not all(math.isfinite(v) for v in popt.values()):
         rec.viol(SITE_FIT, 'non_finite_parameters', f'{res.assessment.name} with popt {popt}', **sub)
         return lo, hi
+    if usable is not None:
+        mask = mask & usable
+        n = int(mask.sum())
     xw, yw, vw = x[mask], y[mask], var[mask]
     ref = pf.statistics(yw, vw, pf.model_values(shape, degree, popt, xw), k)
     reported = {'red_chisq': float(res.red_chisq.value), 'p_value': float(res.p_value.value), 'aic': float(res.aic.value)}
     if 'red_chisq' in ref:
         rec.validated += 3
         rec.cls('stats_recomputed')
-        for name, text in pf.statistics_faults(reported, ref):
-            rec.viol(SITE_FIT, 'statistic_' + name, f'{text}; window [{lo!r}, {hi!r}) n={n} k={k} {shape}+poly{degree}', statistic=name, **sub)
+        for name, text in pf.statistics_faults(reported, ref, rel=stat_rel):
+            rec.viol(SITE_FIT, stat_kind + name if stat_kind.endswith('_') else stat_kind, f'{text}; window [{lo!r}, {hi!r}) n={n} k={k} {shape}+poly{degree}', statistic=name, **sub)
     else:
         rec.cls('zero_degrees_of_freedom')
     if res.success != (res.assessment == FitAssessment.success):
@@ -348,7 +364,7 @@ def points_in(x, windows):
     return [int(pf.in_window(x, lo, hi).sum()) for lo, hi in windows]
 
 
-def run_fit(rec, data, x, estimates, windows, bg_spec, pk_spec, fp, fr, *, sub, explicit=None):
+def run_fit(rec, data, x, estimates, windows, bg_spec, pk_spec, fp, fr, *, sub, explicit=None, usable=None):
     """Call fit_peaks; classify an exception.  -> list of results or None."""
     est = sc.array(dims=['d'], values=np.asarray(estimates, dtype=float), unit=XUNIT)
     rec.transitions += 1
@@ -368,7 +384,11 @@ def run_fit(rec, data, x, estimates, windows, bg_spec, pk_spec, fp, fr, *, sub, 
         if npts is not None:
             info['min_guess_tail'] = min(int(n * frac / 2) for n in npts)
             _count_inputs(rec, x, wins, kmin)
-        if npts is not None and any(n < kmin for n in npts):
+        if usable is not None and wins is not None:
+            info['n_unmasked'] = [int((pf.in_window(x, lo, hi) & usable).sum()) for lo, hi in wins]
+        if npts is not None and any(n >= kmin > u for n, u in zip(npts, info.get('n_unmasked', []), strict=False)):
+            rec.viol(SITE_FIT, 'raises_for_too_few_unmasked_points', f'{type(e).__name__}: {e} (windows hold {npts} points of which {info["n_unmasked"]} are not masked, {kmin} parameters): expected a result per estimate, not an exception', **info, **sub)
+        elif npts is not None and any(n < kmin for n in npts):
             rec.viol(SITE_FIT, 'raises_for_too_few_points', f'{type(e).__name__}: {e} (windows hold {npts} points, {kmin} parameters): expected a window_too_narrow result', **info, **sub)
         else:
             rec.viol(SITE_FIT, 'raises', f'{type(e).__name__}: {e} (windows hold {npts} points, {kmin} parameters, guess fraction {frac})', **info, **sub)
@@ -671,9 +691,12 @@ def run_requirements(case, rec):
 # removal
 
 
-def judge_removal(rec, x, y, results, sub, as_iterator=False):
-    """Run remove_peaks on variance-free data and compare with the reference."""
-    plain = sc.DataArray(sc.array(dims=['d'], values=y, unit=YUNIT), coords={'d': sc.array(dims=['d'], values=x, unit=XUNIT)})
+def judge_removal(rec, x, y, results, sub, as_iterator=False, data=None, peak_tol=1e-12):
+    """Run remove_peaks on variance-free data and compare with the reference.
+
+    data: a prepared variance-free DataArray (masks, extra coords, views, float32 ...) whose dimension-coordinate and
+    values are x and y; default: the plain float64 array built from x and y."""
+    plain = data if data is not None else sc.DataArray(sc.array(dims=['d'], values=y, unit=YUNIT), coords={'d': sc.array(dims=['d'], values=x, unit=XUNIT)})
     before = plain.copy()
     rec.transitions += 1
     rec.states += 1
@@ -687,9 +710,15 @@ def judge_removal(rec, x, y, results, sub, as_iterator=False):
     rec.evals += 1
     if not sc.identical(plain, before, equal_nan=True):
         rec.viol(SITE_REMOVE, 'input_modified', 'remove_peaks changed its input', **sub)
-    if out.dims != plain.dims or out.shape != plain.shape or out.unit != plain.unit or not sc.identical(out.coords['d'], plain.coords['d']):
-        rec.viol(SITE_REMOVE, 'wrong_shape', f'output {out.dims} {out.shape} {out.unit}', **sub)
+    if out.dims != plain.dims or out.shape != plain.shape or out.unit != plain.unit or out.dtype != plain.dtype or not sc.identical(out.coords['d'], plain.coords['d']):
+        rec.viol(SITE_REMOVE, 'wrong_shape', f'output {out.dims} {out.shape} {out.unit} {out.dtype}', **sub)
         return
+    if set(out.coords) != set(before.coords) or any(not sc.identical(out.coords[k], before.coords[k], equal_nan=True) or out.coords[k].aligned != before.coords[k].aligned for k in before.coords):
+        rec.viol(SITE_REMOVE, 'coords_changed', f'coords {sorted(out.coords)} of the output differ from the input coords {sorted(before.coords)}', **sub)
+    if set(out.masks) != set(before.masks) or any(not sc.identical(out.masks[k], before.masks[k]) for k in before.masks):
+        rec.viol(SITE_REMOVE, 'masks_changed', f'masks {sorted(out.masks)} of the output differ from the input masks {sorted(before.masks)}', **sub)
+    if before.masks:
+        rec.cls('removal_with_masks')
     succ = []
     for r in results:
         if r.assessment == FitAssessment.success:
@@ -717,11 +746,11 @@ def judge_removal(rec, x, y, results, sub, as_iterator=False):
     rec.observe(out.values.tobytes())
     rec.validated += 1
     rec.cls('removal_checked')
-    for kind, text in pf.removal_faults(x, y, out.values, succ):
+    for kind, text in pf.removal_faults(x, y, out.values, succ, peak_tol=peak_tol):
         rec.viol(SITE_REMOVE, kind, text, n_success=len(succ), **sub)
     # data with variances must be refused
     withvar = plain.copy()
-    withvar.variances = np.abs(y) + 1.0
+    withvar.variances = (np.abs(y) + 1.0).astype(plain.values.dtype)
     try:
         remove_peaks(withvar, results)
     except Exception:  # noqa: BLE001 - any refusal
@@ -851,10 +880,219 @@ def run_remove_synthetic(case, rec):
     rec.nontrivial += 1
 
 
+# ---------------------------------------------------------------------------------------
+# input representations: the same spectrum handed over as different scipp objects
+
+REPRESENTATIONS = (
+    'plain', 'mask_in_success', 'mask_in_failed', 'mask_outside', 'mask_everywhere', 'mask_whole_window', 'two_masks', 'mask_all_false',
+    'extra_coords', 'slice_of_2d', 'transposed_2d_slice', 'every_second', 'float32_data', 'float32_coord',
+)
+
+
+def _repr_windows(x, truth):
+    """Three explicit windows: around peak 0 (fits), 3 points between the peaks (too narrow), around peak 1 (fits)."""
+    mid = len(x) // 2
+    est = [truth[0]['loc'], float(x[mid]) + 0.3 * local_step(x, mid), truth[1]['loc']]
+    wins = [
+        [truth[0]['loc'] - 10 * truth[0]['step'], truth[0]['loc'] + 10 * truth[0]['step']],
+        [float(x[mid - 1]) - 0.01 * local_step(x, mid), float(x[mid + 1]) + 0.01 * local_step(x, mid)],
+        [truth[1]['loc'] - 10 * truth[1]['step'], truth[1]['loc'] + 10 * truth[1]['step']],
+    ]
+    return est, wins
+
+
+def make_representation(name, x, y, var, wins, garbage=False):
+    """-> (data array with variances, info).  info: 'masked' boolean array (union of all masks) or None,
+    'preserving' (same float64 numbers as the plain array -> results must be bit-identical), x/y/var as the array holds them."""
+    n = len(x)
+    base = data_array(x, y, var)
+    info = {'masked': None, 'preserving': True, 'x': x, 'y': y, 'var': var, 'stat_rel': 1e-9, 'peak_tol': 1e-12}
+    in0 = np.flatnonzero(pf.in_window(x, *wins[0]))
+    in1 = np.flatnonzero(pf.in_window(x, *wins[1]))
+    in2 = np.flatnonzero(pf.in_window(x, *wins[2]))
+    outside = np.flatnonzero(~(pf.in_window(x, *wins[0]) | pf.in_window(x, *wins[1]) | pf.in_window(x, *wins[2])))
+
+    def with_masks(masks):
+        da = base.copy()
+        union = np.zeros(n, dtype=bool)
+        yy = y.copy()
+        for mname, idx in masks.items():
+            m = np.zeros(n, dtype=bool)
+            m[idx] = True
+            union |= m
+            da.masks[mname] = sc.array(dims=['d'], values=m)
+        if garbage and union.any():  # what lies under a mask is nobody's business
+            yy[union] = 1e5 * np.max(np.abs(y))
+            da.values = yy
+        info.update(masked=union, y=yy, preserving=not union.any())
+        return da
+
+    if name == 'plain':
+        return base, info
+    if name == 'mask_in_success':
+        return with_masks({'bad': [in0[3], in0[len(in0) // 2 + 2], in2[-4]]}), info
+    if name == 'mask_in_failed':
+        return with_masks({'bad': [in1[1]]}), info
+    if name == 'mask_outside':
+        return with_masks({'bad': [outside[0], outside[len(outside) // 2], outside[-1]]}), info
+    if name == 'mask_everywhere':
+        return with_masks({'bad': np.arange(n)}), info
+    if name == 'mask_whole_window':
+        return with_masks({'bad': in0}), info
+    if name == 'two_masks':
+        return with_masks({'dead': [in0[2], in2[5]], 'noisy': [in0[2], in0[-3], outside[1]]}), info
+    if name == 'mask_all_false':
+        return with_masks({'bad': [], 'other': []}), info
+    if name == 'extra_coords':
+        da = base.copy()
+        da.coords['tof'] = 2.0 * da.coords['d']  # second aligned, bin-edge-free coord along the dimension
+        da.coords['temperature'] = sc.scalar(3.0, unit='K')
+        da.coords['label'] = sc.arange('d', n, unit=None)
+        da.coords.set_aligned('label', False)
+        da.coords['run'] = sc.scalar(17)
+        da.coords.set_aligned('run', False)
+        return da, info
+    if name == 'slice_of_2d':
+        big = sc.DataArray(
+            sc.array(dims=['spectrum', 'd'], values=np.stack([0 * y + 1, y, 2 * y]), variances=np.stack([var, var, 4 * var]), unit=YUNIT),
+            coords={'d': base.coords['d'], 'spectrum': sc.arange('spectrum', 3)},
+        )
+        return big['spectrum', 1], info
+    if name == 'transposed_2d_slice':
+        big = sc.DataArray(
+            sc.array(dims=['d', 'spectrum'], values=np.stack([0 * y + 1, y, 2 * y]).T.copy(), variances=np.stack([var, var, 4 * var]).T.copy(), unit=YUNIT),
+            coords={'d': base.coords['d'], 'spectrum': sc.arange('spectrum', 3)},
+        )
+        return big['spectrum', 1], info
+    if name == 'every_second':
+        x2 = np.repeat(x, 2)
+        x2[1::2] += 0.3 * np.diff(np.append(x, 2 * x[-1] - x[-2]))
+        y2 = np.repeat(y, 2)
+        y2[1::2] = 7.0
+        long = sc.DataArray(sc.array(dims=['d'], values=y2, variances=np.repeat(var, 2), unit=YUNIT), coords={'d': sc.array(dims=['d'], values=x2, unit=XUNIT)})
+        return long['d', ::2], info
+    if name == 'float32_data':
+        da = base.copy()
+        da.data = da.data.astype('float32')
+        info.update(preserving=False, y=da.values.astype(float), var=da.variances.astype(float), stat_rel=1e-4, peak_tol=1e-6)
+        return da, info
+    if name == 'float32_coord':
+        da = base.copy()
+        da.coords['d'] = da.coords['d'].astype('float32')
+        info.update(preserving=False, x=da.coords['d'].values.astype(float), stat_rel=1e-4, peak_tol=1e-6)
+        return da, info
+    raise ValueError(name)
+
+
+def _close_popt(a, b):
+    """Same minimum to the optimiser's tolerance (see judge_rescaling)."""
+    if a.assessment in (FitAssessment.window_too_narrow, FitAssessment.failed) or b.assessment in (FitAssessment.window_too_narrow, FitAssessment.failed):
+        return None
+    if type(a.peak) is not type(b.peak) or a.background.degree != b.background.degree:
+        return False
+    for name in a.popt:
+        va, vb, var_a = float(a.popt[name].value), float(b.popt[name].value), a.popt[name].variance
+        if var_a is None or not math.isfinite(float(var_a)):
+            continue
+        if not abs(vb - va) <= 0.05 * math.sqrt(float(var_a)) + 1e-6 * abs(va):
+            return False
+    return True
+
+
+def run_representation(case, rec):
+    x, y, var, truth = build_spectrum(case['spectrum'])
+    est, wins = _repr_windows(x, truth)
+    bs, pk = case['background'], case['peak']
+    km = k_min(bs, pk)
+    fr = FitRequirements()
+    name = case['representation']
+    rec.cls('representation_' + name)
+    tw = [tuple(w) for w in wins]
+
+    def fit(da, info, tag):
+        usable = None if info['masked'] is None else ~info['masked']
+        return run_fit(rec, da, info['x'], est, explicit_windows(wins), bs, pk, None, fr, sub={'representation': name, 'variant': tag}, explicit=tw, usable=usable)
+
+    base, binfo = make_representation('plain', x, y, var, wins)
+    ref_res = fit(base, binfo, 'plain')
+    if ref_res is None:
+        return
+    for i, r in enumerate(ref_res):
+        judge_result(rec, r, x, y, var, kmin=km, reqs=fr, sub={'representation': 'plain', 'index': i})
+    if not (ref_res[0].success and ref_res[2].success and not ref_res[1].success):
+        raise RuntimeError('alphabet error: the plain spectrum must give success / failure / success')
+    da, info = make_representation(name, x, y, var, wins)
+    # ---- fit_peaks ---------------------------------------------------------------------------------------
+    res = fit(da, info, 'as_is')
+    masked = info['masked']
+    twin = None
+    if masked is not None and masked.any():
+        da_g, info_g = make_representation(name, x, y, var, wins, garbage=True)
+        twin = (fit(da_g, info_g, 'garbage_under_mask'), info_g)
+    if res is not None:
+        rec.nontrivial += 1
+        for i, r in enumerate(res):
+            sub = {'representation': name, 'index': i}
+            touched = masked is not None and bool((pf.in_window(info['x'], *tw[i]) & masked).any())
+            if not touched:
+                # nothing about this window differs from the plain array
+                judge_result(rec, r, info['x'], info['y'], info['var'], kmin=km, reqs=fr, sub=sub, stat_rel=info['stat_rel'])
+                rec.validated += 1
+                if name != 'float32_data' and name != 'float32_coord':
+                    if fingerprint(r) != fingerprint(ref_res[i]):
+                        rec.viol(SITE_FIT, 'depends_on_representation', f'peak {i}: result for the data given as {name} differs from the result for the plain array ({r.assessment.name} vs {ref_res[i].assessment.name})', **sub)
+                    else:
+                        rec.cls('representation_independent')
+                elif r.assessment != ref_res[i].assessment and FitAssessment.failed not in (r.assessment, ref_res[i].assessment):
+                    rec.viol(SITE_FIT, 'depends_on_representation', f'peak {i}: {r.assessment.name} in single precision, {ref_res[i].assessment.name} in double precision', **sub)
+                continue
+            # masked points inside this window: which points did the fit use?  If what lies under the mask does not move the
+            # optimum, the fit ignored the masked points, and the statistics must be those of the points it used.
+            rec.cls('window_with_masked_points')
+            n_unmasked = int((pf.in_window(info['x'], *tw[i]) & ~masked).sum())
+            if n_unmasked < km:
+                rec.validated += 1
+                if r.success:
+                    rec.viol(SITE_FIT, 'success_without_unmasked_points', f'peak {i}: {n_unmasked} unmasked points for {km} parameters but the result is marked successful', **sub)
+                continue
+            ignored = None
+            if twin is not None and twin[0] is not None:
+                ignored = _close_popt(r, twin[0][i])
+            if ignored is None:
+                rec.cls('mask_semantics_undetermined')
+                continue
+            rec.cls('fit_ignores_masked_points' if ignored else 'fit_uses_masked_points')
+            for rr, inf, tag in ((r, info, 'as_is'), (twin[0][i], twin[1], 'garbage_under_mask')):
+                judge_result(
+                    rec, rr, inf['x'], inf['y'], inf['var'], kmin=km, reqs=fr, sub={**sub, 'variant': tag, 'fit_ignores_masked_points': ignored},
+                    usable=~masked if ignored else None, stat_kind='statistics_include_points_the_fit_ignored' if ignored else 'statistic_',
+                )
+    # ---- remove_peaks: the plain fit's results applied to this representation of the same data --------------
+    plain_data = sc.values(da)
+    judge_removal(rec, info['x'], info['y'], ref_res, {'representation': name}, data=plain_data, peak_tol=info['peak_tol'])
+    if twin is not None:
+        judge_removal(rec, twin[1]['x'], twin[1]['y'], ref_res, {'representation': name, 'variant': 'garbage_under_mask'}, data=sc.values(make_representation(name, x, y, var, wins, garbage=True)[0]), peak_tol=info['peak_tol'])
+    if name not in ('float32_data', 'float32_coord'):  # same float64 numbers as the plain array (masks do not change what is subtracted)
+        with warnings.catch_warnings():
+            warnings.simplefilter('ignore')
+            try:
+                out = remove_peaks(sc.values(da), ref_res)
+                ref_out = remove_peaks(sc.values(base), ref_res)
+            except Exception:  # noqa: BLE001 - reported by judge_removal above
+                return
+        rec.validated += 1
+        if not np.array_equal(out.values, ref_out.values):
+            i = int(np.flatnonzero(out.values != ref_out.values)[0])
+            rec.viol(SITE_REMOVE, 'depends_on_representation', f'data given as {name}: output differs from the output for the plain array at x={info["x"][i]!r} ({out.values[i]!r} vs {ref_out.values[i]!r})', representation=name)
+        else:
+            rec.cls('removal_representation_independent')
+
+
 RUNNERS = {
     'single': run_single, 'edges': run_edges, 'modelspec': run_modelspec, 'multi_auto': run_multi_auto,
     'multi_explicit': run_multi_explicit, 'requirements': run_requirements, 'remove_fitted': run_remove_fitted,
     'remove_synthetic': run_remove_synthetic,
+    'representation': run_representation,
 }
 
 
